@@ -315,8 +315,9 @@ func hexCharUpper(c byte) byte {
 }
 
 var hex2intTable = func() []byte {
-	b := make([]byte, 255)
-	for i := byte(0); i < 255; i++ {
+	b := make([]byte, 256)
+	for n := 0; n < 256; n++ {
+		i := byte(n)
 		c := byte(0)
 		if i >= '0' && i <= '9' {
 			c = 1 + i - '0'
